@@ -334,6 +334,33 @@ add('AUE',
     Rule('X-AUE', '&h[..$n:e]', 'vec_prefix_u8(h, $n)'),
     Rule('X-AUE', 'for $i:i in 0..$n:i $body:b', '{ let mut $i: usize = 0; while $i < $n { $body $i += 1; } }'))
 
+# X-SS (unit symsync): the float expressions of symbol_sync.rs, statement by statement (applied before X-ZC)
+add('SS',
+    Rule('X-SS', 'Box<dyn Ted>', 'TedBox'),
+    Rule('X-SS', 'Box<dyn ClampedFilter<Float>>', 'CfBox'),
+    Rule('X-SS', 'let oslice = o.slice();', '', stmt_start=True),
+    Rule('X-SS', 'oslice[$i:e] = $v:e;', 'o.set($i, $v);', stmt_start=True),
+    Rule('X-SS', 'self.stream_pos >= self.next_sym_middle', 'f_ge(self.stream_pos, self.next_sym_middle)'),
+    Rule('X-SS', 'self.next_sym_middle += self.clock;', 'self.next_sym_middle = fadd(self.next_sym_middle, self.clock);', stmt_start=True),
+    Rule('X-SS', 'self.stream_pos > self.last_sym_boundary_pos', 'f_gt(self.stream_pos, self.last_sym_boundary_pos)'),
+    Rule('X-SS', 'self.$f:i > 0.0', 'fpos(self.$f)'),
+    Rule('X-SS', 'self.sps - self.max_deviation', 'fsub(self.sps, self.max_deviation)'),
+    Rule('X-SS', 'self.sps + self.max_deviation', 'fadd(self.sps, self.max_deviation)'),
+    Rule('X-SS', 'self.stream_pos - self.last_sym_boundary_pos', 'fsub(self.stream_pos, self.last_sym_boundary_pos)'),
+    Rule('X-SS', '(t - self.clock).abs() < (t2 - self.clock).abs()', 'f_abs_lt(fsub(t, self.clock), fsub(t2, self.clock))'),
+    Rule('X-SS', 'let t2 = t - self.clock;', 'let t2 = fsub(t, self.clock);', stmt_start=True),
+    Rule('X-SS', 'while t > mx', 'while f_gt(t, mx)'),
+    Rule('X-SS', 't > mi * 0.8 && t < mx * 1.2', 'f_gt(t, f_mul08(mi)) && f_lt(t, f_mul12(mx))'),
+    Rule('X-SS', 't > 0.0', 'fpos(t)'),
+    Rule('X-SS', 'self.clock_filter.filter_clamped(t - self.sps, mi - self.sps, mx - self.sps $_:c) + self.sps',
+         'fadd(self.clock_filter.filter_clamped(fsub(t, self.sps), fsub(mi, self.sps), fsub(mx, self.sps)), self.sps)'),
+    Rule('X-SS', 'self.last_sym_boundary_pos + self.clock / 2.0', 'fadd(self.last_sym_boundary_pos, fhalf(self.clock))'),
+    Rule('X-SS', 'self.next_sym_middle < self.stream_pos', 'f_lt(self.next_sym_middle, self.stream_pos)'),
+    Rule('X-SS', 'self.stream_pos += 1.0;', 'self.stream_pos = f_inc(self.stream_pos);', stmt_start=True),
+    Rule('X-SS', '10.0 * self.clock', 'fmul10(self.clock)'),
+    Rule('X-SS', 'self.$f:i > step_back', 'f_gt(self.$f, step_back)'),
+    Rule('X-SS', 'self.$f:i -= step_back;', 'self.$f = fsub(self.$f, step_back);', stmt_start=True))
+
 # X-ZC (unit zc): float expressions of zero_crossing.rs become calls of uninterpreted functions; the optional clock stream
 add('ZC',
     Rule('X-ZC', '($a:e + ($b:e / 2.0)) as u64', 'f2u(fadd($a, fhalf($b)))'),
